@@ -1,6 +1,7 @@
 import Nstd.Variant.LemmasSpec
 import Nstd.Variant.LemmasDec
 import Nstd.Variant.Ieee
+import Nstd.Variant.DeepRun
 /-
   Property C07 — Variant keeps the last assigned value with independent lazy copies.
 
@@ -366,6 +367,58 @@ theorem eq_after_detach (ds : DblSem) (pre : List Op) (v w : Nat) (hv : v < nvar
   rw [e1, e2]
   exact ⟨veq_refl ds _ hn, veq_refl ds _ hn⟩
 
+/-! ## deep model: lazy sharing of nested elements, destructor cascade
+
+`Nstd.Variant.Deep` (Deep.lean) is the model the compiled driver runs: element Variants are
+cells (inline scalar / pointer to a shared block), copying a payload shares the element
+blocks, releasing the last handle destroys the payload recursively, and every level of a
+nested mutable access takes its own clone-or-in-place decision.  Its reference counts of
+*all* blocks are compared with the real `data->ref` after every operation of the
+correspondence run.
+
+Proved below for all histories made of the operations that act on a variable itself
+(`OpSup`): construction from literals, copy construction, `v = w`, `v = <any nested element
+of any variable, including of v itself>` (`get`, any path), swap, clear, the mutable
+accessors, scalar typed assignment, list/array append and prepend of variables or literals —
+the values may be nested to any depth and share blocks in any way.  The ghost map `g` ties
+every block to a value by a local equation; reference count = handles in variables + handles
+stored in payloads + pending handles of the running operation (DeepInv.lean); `release`
+terminates within a fuel above the number of live blocks (DeepRelease.lean).
+
+OPEN: deep_refines  — the same statement without the hypothesis `∀ op ∈ ops, OpSup op`
+  (mutations through nested paths `mut v (st :: p) lf`, typed container assignment /
+  construction from temporaries, `lrem/arem/mput/mrem/sapp`, string typed assignment).
+  What is missing is the bookkeeping that the parent block of a nested walk is untouched by the
+  nested call (the single-level lemmas `dinv_access`, `leaf_step`, `dinv_setPay` are proved);
+  these operations are covered by `refines` on the variable-level model and by the
+  correspondence run (values and reference counts).                                            -/
+
+/-- For every history of variable-level operations the deep model never faults, its abstract
+    state is the specification store, and what it reads back from the heap (`readCell`, any fuel
+    above the size of the value) is the specification's value. -/
+theorem deep_refines_partial (ds : DblSem) (ops : List Op) (hsup : ∀ op ∈ ops, Deep.OpSup op) :
+    ∃ s, Deep.drun ds Deep.dinit Store.init ops = some (s, specRun ds Store.init ops) ∧
+      Deep.DGood s (specRun ds Store.init ops) ∧
+      ∀ v, v < nvars → ∀ f, sizeOf (specRun ds Store.init ops v) < f →
+        Deep.readCell f s.h (s.vars v) = specRun ds Store.init ops v := by
+  obtain ⟨s, r, g⟩ := Deep.drun_refines ds ops Deep.dinit Store.init Deep.dgood_init hsup
+  exact ⟨s, r, g, fun v hv f hf => Deep.read_eq g v hv f hf⟩
+
+/-- `clear()` / the destructor on any pending handle of any state satisfying the invariant:
+    terminates (fuel above the number of live blocks), keeps the invariant with that handle
+    gone, allocates nothing and never changes the payload of a block that survives. -/
+theorem deep_release_terminates {vars : Nat → Cell} {g : Nat → Val} (f : Nat) (h : Deep.Heap) (e : Nat → Nat) (c : Cell)
+    (i : Deep.DInv h vars e g) (hp : ∀ x, Deep.cellCnt c x ≤ e x) (hf : Deep.liveCount h < f) :
+    ∃ h', Deep.release f h c = some h' ∧ Deep.DInv h' vars (fun x => e x - Deep.cellCnt c x) g ∧ Deep.Shrinks h h' :=
+  Deep.dinv_release f h e c i hp hf
+
+/-- the mutable accessor on any held cell: afterwards the cell points to a block it owns alone
+    (`ref = 1`, no other handle anywhere) that holds the coerced value; no other block's value changes -/
+theorem deep_access (ds : DblSem) {h : Deep.Heap} {vars e g c} (hd : Deep.Held h vars e g c) (k : Nat) (hk : isKind k)
+    (f : Nat) (hf : Deep.liveCount h + 1 < f) :
+    ∃ h' b g', Deep.accessCell f ds h c k = some (h', .ptr b) ∧ Deep.Accessed ds h vars e g c k h' b g' :=
+  Deep.dinv_access ds hd k hk f hf
+
 /-! ## non-vacuity -/
 
 /-- a NaN-free nested value under the driver's IEEE semantics: [1.5, {"k": 5, "s": "x"}, [[]]] -/
@@ -396,5 +449,28 @@ example : ∀ op ∈ sampleOps.take 3, (step ieee (run ieee init []) op).isSome 
   intro op hop
   simp [sampleOps] at hop
   rcases hop with rfl | rfl | rfl <;> rfl
+
+/-- a variable-level history with nested sharing: a string block shared by three list elements and a
+    variable, a clone of a shared list (elements stay shared), a destructor cascade, extraction of an
+    own element, swap -/
+def sampleDeepOps : List Op :=
+  [ .new 0 (.lit (.str [97])),
+    .mut 1 [] (.lapp (.var 0)),
+    .mut 1 [] (.lapp (.var 0)),
+    .mut 2 [] (.aapp (.var 1)),
+    .copy 3 1,
+    .mut 3 [] (.lpre (.lit (.int 7))),
+    .mut 1 [] .clear,
+    .get 2 2 [.ar 0, .li 1],
+    .swap 0 3 ]
+
+example : ∀ op ∈ sampleDeepOps, Deep.OpSup op := by
+  intro op hop
+  simp [sampleDeepOps] at hop
+  rcases hop with rfl | rfl | rfl | rfl | rfl | rfl | rfl | rfl | rfl <;> simp [Deep.OpSup, Deep.LeafSupS, Deep.SrcLit, Deep.LitOk]
+
+example : specRun ieee Store.init sampleDeepOps 0 = .list [.int 7, .str [97], .str [97]] ∧
+    specRun ieee Store.init sampleDeepOps 2 = .str [97] := by
+  constructor <;> rfl
 
 end Nstd.Variant
